@@ -33,16 +33,16 @@ CLAIMED = {
   "C07": C("exploration", "3 C07", "deterministic simulation: exact file-set oracle after every step and at the end of every schedule",
       "cas/ must hold exactly the referenced blobs and staging/ must be empty after every mutating step of every fault-free history, after clean restarts (scan reports nothing) and at the end of every error-free concurrent schedule.",
       SEQ_NOTE + " Concurrent part: " + CONC_NOTE, "casim-seq"),
-  "C08": C("exploration", "3 C08", "deterministic simulation: seeded schedules of clean-up racing puts of orphaned content",
-      "Concurrent part only so far: delete_orphans / quarantine_orphans / delete_orphan race puts of the orphaned content (also two writers on one key) and removes; a blob that a put committed must never be removed (no-dangling monitor + end-state reads). Crash-image scan exactness is checked inside C03's judge.",
-      CONC_NOTE, "casim-conc"),
+  "C08": C("exploration", "3 C08", "deterministic simulation: crash images + planted garbage (scan/clean-up oracle) and seeded schedules of clean-up racing puts",
+      "Sequential: final and crash images of seeded histories get planted garbage (arbitrary well-formed hashes, ill-formed and non-canonical names, stray files at all depths, deleted/resized/flipped referenced blobs, leftover staging files and a staging subdirectory); the five OrphanStats lists and total_blobs must equal the checker's own directory/index comparison, and one of delete_orphans / quarantine_orphans / delete_orphan must report the expected counters and change exactly the reported garbage. Concurrent: clean-up races puts of the orphaned content (also two writers on one key) and removes; a blob that a put committed must never be removed.",
+      SEQ_NOTE + " Concurrent part: " + CONC_NOTE, "casim-seq"),
   "C09": C("fault_enumeration", "3 C09", "deterministic simulation: power-loss images = cut x loss sets over SimDisk's durable view",
       "Sync mode: for sampled cuts all 2^d choices of which dirty files lose their unsynced bytes (d<=4; sampled beyond) are materialised from SimDisk's durable view, recovered by the real code and judged like C03; exactly the property's fault model (all-or-nothing per file, directory operations in order)."),
   "C10": C("fault_enumeration", "3 C10", "deterministic simulation: byte-level truncation and flip of the un-checkpointed log at rest",
       "For sampled histories with an un-checkpointed tail: every truncation offset (<=2 KiB tails) and every checksum/payload byte x 4 values (<=1 KiB) is applied to a copy; open must fail or show exactly the state after the undamaged prefix, and never panic."),
-  "C11": C("exploration", "3 C11", "deterministic simulation: seeded schedules of racing opens at syscall granularity",
-      "Threads part: 2-4 tasks race open/open_with_recover on one directory with clones and OrphanStats kept past the drop; at most one live handle, losers fail with AlreadyOpened without any mutating call except opening LOCK, a final open succeeds. The separate-process part is not built yet.",
-      CONC_NOTE + " flock semantics are the kernel's (real).", "casim-conc"),
+  "C11": C("exploration", "3 C11", "deterministic simulation: seeded schedules of racing opens at syscall granularity + handshake-sequenced real processes",
+      "Threads part: 2-4 tasks race open/open_with_recover on one directory with clones and OrphanStats kept past the drop; at most one live handle, losers fail with AlreadyOpened without any mutating call except opening LOCK, a final open succeeds. Process part: real child processes sequenced by pipe handshakes: the loser fails and leaves every file byte-identical, after the owner exits or is SIGKILLed the next open succeeds and reads the owner's acknowledged write, two children released together give exactly one winner.",
+      CONC_NOTE + " flock semantics are the kernel's (real). The process part is deterministic by construction of its handshakes, not by a controlled scheduler.", "casim-conc"),
   "C12": C("exploration", "3 C12", "deterministic simulation: refcount/stat oracle after every audit, restart and crash recovery",
       "known_blobs, contains_blob_hash, unique_blobs, total_bytes, get_size versus model multiplicities after audits, restarts and judged crash recoveries; the build has overflow checks on so an underflow panics."),
   "C13": C("exploration", "3 C13", "deterministic simulation: aborted transactions at every position + abort racing commit under seeded schedules",
@@ -53,6 +53,8 @@ CLAIMED = {
   "C15": C("exploration", "3 C15", "deterministic simulation: seeded schedules with deadlock/hang detection by the controlled scheduler",
       "Programs with the full call mix incl. explicit and roll-over checkpoints and clean-up; every execution must end with all tasks finished (no runnable task = deadlock; > 30000 steps = hang); the writer-preferring RwLock shim makes reader-recursion deadlocks reachable; the held->acquired lock graph is reported.",
       CONC_NOTE, "casim-conc"),
+  "C16": C("exploration", "3 C16 + 7", "deterministic simulation: forged snapshots / log records / settings between two opens (F-forge), counting allocator",
+      "Storage-facing part only: every key/hash/size the API writes round-trips through the disk in all other checks; here canonical snapshots of arbitrary entries (extreme sizes, 0..200 entries, all key types) must load exactly and be written back identically; truncations, boundary counts/lengths, bit flips, trailing bytes, keys invalid for the key type, WAL records with valid checksums over malformed payloads, forged version/length fields, an end marker in the middle and malformed settings files must give Ok or Err without panic; no single allocation above 2x input + 64 KiB while decoding. The pure for-all-values round-trip law is not a simulation target (DESIGN.md 7)."),
   "C17": C("exploration", "3 C17", "deterministic simulation: short-read injection over an enumerated (L,start,end) cube",
       "get_range is a pread loop: all (start,end) in [0,L+2]^2 for L=0..6 exhaustively, L around buffer sizes with boundary bounds up to 2^64-1, half the runs with every pread shortened; results must equal the slice, inverted ranges rejected exactly when start < L, readers drain to L bytes."),
   "C18": C("exploration", "3 C18", "deterministic simulation: chunking enumeration + short-write/EINTR injection on the staging stream",
@@ -64,7 +66,6 @@ CLAIMED = {
 }
 
 NOT_YET = {
-  "C16": "not claimed yet: the F-forge mode (forged snapshots / WAL records between two opens) is still under construction in this round; the pure round-trip law over all values is not a simulation target (DESIGN.md 7)",
 }
 
 def main():
@@ -103,7 +104,7 @@ def main():
         ],
         "checks": checks,
         "not_applicable": na,
-        "notes": "All checks: exit 0 held / 1 VIOLATION / 2 harness error. VERIF_SEED and VERIF_TIER honoured. Known findings and fixed defects: known_findings.json. Four genuine defects were repaired in /repo with fix: commits (8633b4a, 2b3c92e, b68755c, da69cee).",
+        "notes": "All checks: exit 0 held / 1 VIOLATION / 2 harness error. VERIF_SEED and VERIF_TIER honoured. Known findings and fixed defects: known_findings.json. Five genuine defects were repaired in /repo with fix: commits (8633b4a, 2b3c92e, b68755c, da69cee, aebf71c).",
     }
     json.dump(m, open(os.path.join(VERIF, "MANIFEST.json"), "w"), indent=1)
 
